@@ -5,7 +5,7 @@ M = "xhair.obl.c10"
 
 def x_obligations(tier):
     o = []
-    T = 170 if tier == "quick" else 1500
+    T = 170 if tier == "quick" else 600
     n = 1 if tier == "quick" else 2
     commas = [("h/", "", "s"), ("h/a/x?version=", "", "v1")] if tier == "quick" else [("h/", "", "s"), ("h/a/x?version=", "", "v1"), ("h/a/x/v1/", "", "g"), ("h/s/q1/", "/**", "q2"), ("h/*/**?ext=", "", "c"), ("h/s/q1/v1/", "/c", "o"), ("h/s/", "/v1", "*")]
     for pre, suf, alt in commas:
